@@ -24,7 +24,7 @@ func (m *Mutex) Lock() {
 		m.held, m.realHeld = true, true
 		return
 	}
-	sched.Point("Mutex.Lock", func() bool { return !m.held })
+	sched.PointOp("Mutex.Lock", sched.OpSig{Obj: m}, func() bool { return !m.held })
 	m.held = true
 }
 
@@ -36,7 +36,7 @@ func (m *Mutex) TryLock() bool {
 		}
 		return ok
 	}
-	sched.Point("Mutex.TryLock", nil)
+	sched.PointOp("Mutex.TryLock", sched.OpSig{Obj: m}, nil)
 	if m.held {
 		return false
 	}
@@ -54,7 +54,7 @@ func (m *Mutex) Unlock() {
 		}
 		return
 	}
-	sched.Point("Mutex.Unlock", nil)
+	sched.PointOp("Mutex.Unlock", sched.OpSig{Obj: m}, nil)
 	if !m.held {
 		panic("sync: unlock of unlocked mutex")
 	}
@@ -72,7 +72,7 @@ func (m *RWMutex) Lock() {
 		m.real.Lock()
 		return
 	}
-	sched.Point("RWMutex.Lock", func() bool { return !m.writer && m.readers == 0 })
+	sched.PointOp("RWMutex.Lock", sched.OpSig{Obj: m}, func() bool { return !m.writer && m.readers == 0 })
 	m.writer = true
 }
 func (m *RWMutex) Unlock() {
@@ -84,7 +84,7 @@ func (m *RWMutex) Unlock() {
 		m.real.Unlock()
 		return
 	}
-	sched.Point("RWMutex.Unlock", nil)
+	sched.PointOp("RWMutex.Unlock", sched.OpSig{Obj: m}, nil)
 	m.writer = false
 }
 func (m *RWMutex) RLock() {
@@ -92,7 +92,7 @@ func (m *RWMutex) RLock() {
 		m.real.RLock()
 		return
 	}
-	sched.Point("RWMutex.RLock", func() bool { return !m.writer })
+	sched.PointOp("RWMutex.RLock", sched.OpSig{Obj: m}, func() bool { return !m.writer })
 	m.readers++
 }
 func (m *RWMutex) RUnlock() {
@@ -104,14 +104,14 @@ func (m *RWMutex) RUnlock() {
 		m.real.RUnlock()
 		return
 	}
-	sched.Point("RWMutex.RUnlock", nil)
+	sched.PointOp("RWMutex.RUnlock", sched.OpSig{Obj: m}, nil)
 	m.readers--
 }
 func (m *RWMutex) TryLock() bool {
 	if !sched.Active() {
 		return m.real.TryLock()
 	}
-	sched.Point("RWMutex.TryLock", nil)
+	sched.PointOp("RWMutex.TryLock", sched.OpSig{Obj: m}, nil)
 	if m.writer || m.readers > 0 {
 		return false
 	}
@@ -122,7 +122,7 @@ func (m *RWMutex) TryRLock() bool {
 	if !sched.Active() {
 		return m.real.TryRLock()
 	}
-	sched.Point("RWMutex.TryRLock", nil)
+	sched.PointOp("RWMutex.TryRLock", sched.OpSig{Obj: m}, nil)
 	if m.writer {
 		return false
 	}
@@ -150,7 +150,7 @@ func (o *Once) Do(f func()) {
 		o.real.Do(func() { f(); o.done = true })
 		return
 	}
-	sched.Point("Once.Do", func() bool { return !o.running })
+	sched.PointOp("Once.Do", sched.OpSig{Obj: o}, func() bool { return !o.running })
 	if o.done {
 		return
 	}
@@ -199,7 +199,7 @@ func (p *Pool) Get() any {
 		}
 		return nil
 	}
-	sched.Point("Pool.Get", nil)
+	sched.PointOp("Pool.Get", sched.OpSig{Obj: p}, nil)
 	if n := len(p.items); n > 0 {
 		// default: reuse the most recently returned item; deviation: behave as if the pool had been drained
 		if sched.EnvChoice("Pool.Get(reuse|fresh)", 2) == 0 {
@@ -224,33 +224,49 @@ func (p *Pool) Put(x any) {
 		p.mu.Unlock()
 		return
 	}
-	sched.Point("Pool.Put", nil)
+	sched.PointOp("Pool.Put", sched.OpSig{Obj: p}, nil)
 	p.items = append(p.items, x)
 }
 
-// Map wraps the real sync.Map; every method is one scheduling point.
+// Map wraps the real sync.Map; every method is one scheduling point whose signature
+// names the map and the key, so operations on different keys are independent.
 type Map struct{ real sync.Map }
 
-func (m *Map) Load(k any) (any, bool)      { sched.Point("Map.Load", nil); return m.real.Load(k) }
-func (m *Map) Store(k, v any)              { sched.Point("Map.Store", nil); m.real.Store(k, v) }
-func (m *Map) Delete(k any)                { sched.Point("Map.Delete", nil); m.real.Delete(k) }
-func (m *Map) Clear()                      { sched.Point("Map.Clear", nil); m.real.Clear() }
-func (m *Map) Range(f func(k, v any) bool) { sched.Point("Map.Range", nil); m.real.Range(f) }
+func (m *Map) Load(k any) (any, bool) {
+	sched.PointOp("Map.Load", sched.OpSig{Obj: m, Key: k, Read: true}, nil)
+	return m.real.Load(k)
+}
+func (m *Map) Store(k, v any) {
+	sched.PointOp("Map.Store", sched.OpSig{Obj: m, Key: k}, nil)
+	m.real.Store(k, v)
+}
+func (m *Map) Delete(k any) {
+	sched.PointOp("Map.Delete", sched.OpSig{Obj: m, Key: k}, nil)
+	m.real.Delete(k)
+}
+func (m *Map) Clear() { sched.PointOp("Map.Clear", sched.OpSig{Obj: m}, nil); m.real.Clear() }
+func (m *Map) Range(f func(k, v any) bool) {
+	sched.PointOp("Map.Range", sched.OpSig{Obj: m}, nil)
+	m.real.Range(f)
+}
 func (m *Map) LoadOrStore(k, v any) (any, bool) {
-	sched.Point("Map.LoadOrStore", nil)
+	sched.PointOp("Map.LoadOrStore", sched.OpSig{Obj: m, Key: k}, nil)
 	return m.real.LoadOrStore(k, v)
 }
 func (m *Map) LoadAndDelete(k any) (any, bool) {
-	sched.Point("Map.LoadAndDelete", nil)
+	sched.PointOp("Map.LoadAndDelete", sched.OpSig{Obj: m, Key: k}, nil)
 	return m.real.LoadAndDelete(k)
 }
-func (m *Map) Swap(k, v any) (any, bool) { sched.Point("Map.Swap", nil); return m.real.Swap(k, v) }
+func (m *Map) Swap(k, v any) (any, bool) {
+	sched.PointOp("Map.Swap", sched.OpSig{Obj: m, Key: k}, nil)
+	return m.real.Swap(k, v)
+}
 func (m *Map) CompareAndSwap(k, o, n any) bool {
-	sched.Point("Map.CompareAndSwap", nil)
+	sched.PointOp("Map.CompareAndSwap", sched.OpSig{Obj: m, Key: k}, nil)
 	return m.real.CompareAndSwap(k, o, n)
 }
 func (m *Map) CompareAndDelete(k, o any) bool {
-	sched.Point("Map.CompareAndDelete", nil)
+	sched.PointOp("Map.CompareAndDelete", sched.OpSig{Obj: m, Key: k}, nil)
 	return m.real.CompareAndDelete(k, o)
 }
 
@@ -264,7 +280,7 @@ func (w *WaitGroup) Add(d int) {
 		w.real.Add(d)
 		return
 	}
-	sched.Point("WaitGroup.Add", nil)
+	sched.PointOp("WaitGroup.Add", sched.OpSig{Obj: w}, nil)
 	w.n += d
 	if w.n < 0 {
 		panic("sync: negative WaitGroup counter")
@@ -276,7 +292,7 @@ func (w *WaitGroup) Wait() {
 		w.real.Wait()
 		return
 	}
-	sched.Point("WaitGroup.Wait", func() bool { return w.n == 0 })
+	sched.PointOp("WaitGroup.Wait", sched.OpSig{Obj: w}, func() bool { return w.n == 0 })
 }
 
 type Cond struct {
@@ -295,7 +311,7 @@ func (c *Cond) Wait() {
 	woken := false
 	c.waiters = append(c.waiters, &woken)
 	c.L.Unlock()
-	sched.Point("Cond.Wait", func() bool { return woken })
+	sched.PointOp("Cond.Wait", sched.OpSig{Obj: c}, func() bool { return woken })
 	c.L.Lock()
 }
 func (c *Cond) Signal() {
@@ -303,7 +319,7 @@ func (c *Cond) Signal() {
 		c.real.Signal()
 		return
 	}
-	sched.Point("Cond.Signal", nil)
+	sched.PointOp("Cond.Signal", sched.OpSig{Obj: c}, nil)
 	if len(c.waiters) > 0 {
 		*c.waiters[0] = true
 		c.waiters = c.waiters[1:]
@@ -314,7 +330,7 @@ func (c *Cond) Broadcast() {
 		c.real.Broadcast()
 		return
 	}
-	sched.Point("Cond.Broadcast", nil)
+	sched.PointOp("Cond.Broadcast", sched.OpSig{Obj: c}, nil)
 	for _, w := range c.waiters {
 		*w = true
 	}
